@@ -123,6 +123,7 @@ type SlotInfo struct {
 	Value  string
 	Token  string
 	Hidden bool // sits in a side tree (secondary / hidden / reference)
+	Fmt    bool // the slot is used as a raw printf format
 }
 
 // SlotInfos lists the slots of t with their tokens.
@@ -140,7 +141,7 @@ func (t *Term) SlotInfos() []SlotInfo {
 				// the slot may carry another position's token (aliased strings)
 				tok = m
 			}
-			out = append(out, SlotInfo{K: k, Op: t.Op.Name, Name: sl.Name, Safe: sl.Safe, NoRep: sl.NoReport || notRetained, Value: t.S[i], Token: tok, Hidden: hidden})
+			out = append(out, SlotInfo{K: k, Op: t.Op.Name, Name: sl.Name, Safe: sl.Safe, NoRep: sl.NoReport || notRetained, Value: t.S[i], Token: tok, Hidden: hidden, Fmt: sl.Fmt})
 			k++
 		}
 		rec(t.Kid, hidden || t.Op.HidesCause, notRetained)
